@@ -9,6 +9,19 @@ ASSUMPTIONS = ["oracle: internal consistency of the implementation's own answers
 def one_case(rng, tier):
     al = Alphabet(rng, boundary=True)
     case = Case()
+    if rng.random() < 0.06:
+        # a fresh, almost empty manager and a term with far more derivatives than stored terms: the bound
+        # must be compared with the number of derivatives, not with anything else the manager knows
+        c = case.push("char %d" % al.rand_char(rng))
+        k = rng.choice([6, 9, 15, 20, 30])
+        t = case.push("pow %d %d" % (c, k)) if rng.random() < 0.6 else case.push("loop %d %d %d" % (c, k - 2, k))
+        for n in sorted(set([2, 3, k - 5, k - 1, k, k + 1, k + 2, k + 3])):
+            if n >= 0:
+                case.obs("trycompile %d %d" % (t, n))
+        case.obs("iter %d" % t)
+        for n in (k - 1, k + 1, k + 2):
+            case.obs("trycompile %d %d" % (t, n))
+        return case.line()
     t = gen_term(rng, case, al, rng.choice([2, 3, 4]), []) if rng.random() < 0.85 else degenerate_term(rng, case, al)
     order = rng.random()
     if order < 0.3:      # try_compile before anything is cached
